@@ -286,8 +286,18 @@ func init() {
 		}
 		p.Store = healthyStore(r, p.H/2)
 		p.Store.WatchDelay = [2]Dur{0, Pick(r, []time.Duration{1 * ms, 50 * ms})}
+		// in some plans the store fails refreshes now and then (never three in a row on purpose:
+		// the oracle only judges demotions made by the health mechanism, but a second demotion
+		// cause in the same term is exactly where counting goes wrong)
+		if r.Bool(0.4) {
+			p.TTL += 4 * p.H
+			p.Faults = append(p.Faults, Fault{Kind: FError, Inst: -1, Op: "update", From: 0, To: 0, Err: Pick(r, []string{"timeout", "noresponders"}), Prob: Pick(r, []float64{0.15, 0.3})})
+		}
 		// long enough to consume the scripts over several terms (each demotion costs ~TTL)
 		p.Until = time.Duration(len(p.Insts[0].Health)+10)*p.H + 8*p.TTL
+		for i := range p.Faults {
+			p.Faults[i].To = p.Until // the tail is fault-free
+		}
 		p.Tail = p.TTL + 2*sec
 		p.Sched = SchedCfg{YieldProb: Pick(r, []float64{0, 0.2})}
 		return p
@@ -617,9 +627,17 @@ func init() {
 				end = f.To
 			}
 		}
+		// later vacancies: whoever leads by then loses the record again (several terms per
+		// candidate: a candidate that led before must be able to come back)
+		t := end + r.Dur(1*sec, 4*sec)
+		for k := r.Intn(3); k > 0; k-- {
+			p.Actions = append(p.Actions, Action{At: t, Kind: Pick(r, []string{AOutDelete, AExpire}), Key: "g1"})
+			t += p.TTL/2 + r.Dur(2*sec, 5*sec)
+		}
+		end = t
 		p.Until = end + 6*sec
 		p.Tail = p.TTL + 2*sec
-		p.Sched = SchedCfg{YieldProb: Pick(r, []float64{0, 0.2}), StallMax: 0}
+		p.Sched = SchedCfg{YieldProb: Pick(r, []float64{0, 0.2, 0.5}), StallMax: Pick(r, []time.Duration{0, 5 * ms, 50 * ms, p.H / 10})}
 		return p
 	}
 }
